@@ -31,6 +31,8 @@ def obligations(tier, seed):
                        '"." not in A and "." not in B and "." not in C', 'rl == %s' % rl, 'rg == %s' % rg]
                 if tier == 'quick' and skeletons.HOIST_TEMPLATES[k][0] in ('one_true_float', 'none_true_bytes'):
                     pre.append('A == %r and B == %r' % ('a' * L, 'b' * L))     # many hoisted values: pin two holes in the quick tier
+                if tier == 'quick' and name_k.startswith('folded_'):
+                    pre.append('C == %r' % ('c' * L))     # the free name is irrelevant to folding + hoisting: pinned in the quick tier
                 shards.append(pre)
     return [
         dict(name='C06.hoist_ok', fn='hoist_ok', shards=shards, timeout=t, bounds='see META', public_replay='public_hoist_ok'),
